@@ -24,12 +24,3 @@ Print Assumptions C19_step.
 Theorem C19_run : forall ops, Forall op_ok ops -> run true langs init_state ops = run false langs init_state ops.
 Proof. exact run_sgn_independent. Qed.
 Print Assumptions C19_run.
-
-(* the translated comparers of the current lang.c compute the mirror comparer for BOTH settings of
-   `sgn` (the parameter `sgn` of the translation is how a plain char read through a pointer is
-   widened); with C19_search_sgn_independent the search result is the same in both *)
-Theorem C19_code_tie : forall sgn L key elm fuel, no_nul key ->
-  (length key + 2 <= fuel)%nat -> (length elm + 2 <= fuel)%nat ->
-  c_comparer fuel sgn L key elm = Some (comparer sgn L key elm).
-Proof. exact tie_comparer. Qed.
-Print Assumptions C19_code_tie.
